@@ -54,6 +54,15 @@ DataWhy(r) == IF ~D!Isolated(pend.A, pend.A.s, r.s, cur) THEN "an instruction ch
                    ELSE "the values on the stack differ from every admitted effect of the instruction"
 GlobNext(r) == IF HasData(r) THEN D!GlobalsAfter(pend.A, pend.A.s, glob) ELSE glob
 
+\* ---- where a failed run says it failed (C15), when the run ends in the outermost loop after an instruction that keeps the
+\* frames (so the failing instruction - the last one, or on Timeout the one that was next - belongs to the same function): the
+\* error's trace begins with a card of that function (tf = "namespace/function" of the card the compiler's source trace gives for
+\* the instruction) and continues with one call card per active caller, optionally followed by the program entry
+LocOk(r) == \/ "etrace" \notin DOMAIN r \/ r.ok \/ mode # "run" \/ ctx # <<>> \/ pend.k # "instr"
+            \/ "tf" \notin DOMAIN pend.A \/ pend.A.tf = ""
+            \/ pend.A.op \in {"CallFunction", "Return", "CallNative", "Exit"}
+            \/ (Len(r.etrace) \in {Len(cur), Len(cur) + 1} /\ r.etrace[1] = pend.A.tf)
+
 TInit == l = 1 /\ mode = "skip" /\ pend = None /\ ctx = <<>> /\ cur = MainF /\ last = "" /\ prog = [labels |-> <<>>, starts |-> {}, end |-> 0] /\ glob = <<>>
          /\ ip = 0 /\ h = 0 /\ F = MainF
 TNext ==
@@ -106,6 +115,7 @@ TNext ==
        [] r.e = "RunEnd" ->
             \* a successful run ends with Exit in the outermost loop (or ran no instruction at all)
             IF r.ok /\ mode = "run" /\ ~(last = "Exit" /\ ctx = <<>>) THEN Reject(r, "a run ended successfully without reaching Exit in the outermost loop")
+            ELSE IF ~LocOk(r) THEN Reject(r, "the error's trace does not begin in the function whose instruction failed, or its length is not that of the call chain")
             ELSE Stop
        [] OTHER -> Reject(r, "unknown record")
 TSpec == TInit /\ [][TNext]_tvars
